@@ -26,6 +26,7 @@ import IsoDT.Driver.Cli2
 import IsoDT.Driver.DurTextQ
 import IsoDT.Driver.RecText
 import IsoDT.Driver.TruncQ
+import IsoDT.Driver.ConstructTrunc
 
 open IsoDT IsoDT.Model
 open IsoDT.Spec (Date TZ TP)
@@ -343,6 +344,7 @@ def extDispatch (toks : List String) : Option String :=
   <|> IsoDT.Driver.DurTextQ.dispatch toks
   <|> IsoDT.Driver.RecText.dispatch toks
   <|> IsoDT.Driver.TruncQ.dispatch toks
+  <|> IsoDT.Driver.ConstructTrunc.dispatch toks
   -- <|> IsoDT.Driver.Foo.dispatch toks
 
 def dispatch (toks : List String) : String :=
